@@ -153,4 +153,77 @@ theorem iBlock_eq (env : Env) (fuel : Nat) (conds : List (Src × List Blk)) (els
   simp only [List.nil_append, List.length_nil] at this
   simp only [iBlockGen, this]
 
+/-! ### the `'v'` branch -/
+
+theorem esc_id_of_plain : ∀ (s : Text), (s.contains '&' || s.contains '<' || s.contains '>' || s.contains '"' || s.contains '\'') = false →
+    s.flatMap escChar = s := by
+  intro s
+  induction s with
+  | nil => intro _; rfl
+  | cons c t ih =>
+    intro h
+    simp only [List.contains_cons, Bool.or_eq_false_iff, beq_eq_false_iff_ne, ne_eq] at h
+    obtain ⟨⟨⟨⟨⟨h1, h1'⟩, ⟨h2, h2'⟩⟩, ⟨h3, h3'⟩⟩, ⟨h4, h4'⟩⟩, ⟨h5, h5'⟩⟩ := h
+    have iht := ih (by rw [h1', h2', h3', h4', h5']; rfl)
+    have hc : escChar c = [c] := by
+      simp only [escChar]
+      rw [if_neg (fun e => h1 e.symm), if_neg (fun e => h2 e.symm), if_neg (fun e => h3 e.symm),
+        if_neg (fun e => h4 e.symm), if_neg (fun e => h5 e.symm)]
+    simp [List.flatMap_cons, hc, iht]
+
+/-- the `'v'` branch of the source is the simple dtml-var of the model (which always escapes: the fast path of the source
+is sound because text without the five characters is its own escaping) -/
+theorem vBlock_eq (env : Env) (fuel : Nat) (src : Src) (hq : Bool) (st : St) :
+    vBlockGen env fuel src hq st = fetchVar env (fuel + 2) src hq none st := by
+  have key : ∀ (rr : Res Val × St),
+      (match rr with
+        | (.ok v, st') =>
+          let t : Piece := pieceOfVal v
+          if hq then
+            let skip : Bool := match t with
+              | .text s => if (s.contains '&' || s.contains '<' || s.contains '>' || s.contains '"' || s.contains '\'') then false else true
+              | .bytes _ => false
+            if !skip then
+              (match htmlQuote env t with
+               | .ok p => (Res.ok (if pieceEmpty p then [] else [p]), st')
+               | .raise e => (.raise e, st')
+               | _ => (.oom, st'))
+            else (.ok (if pieceEmpty t then [] else [t]), st')
+          else (.ok (if pieceEmpty t then [] else [t]), st')
+        | (.raise e, st') => (.raise e, st')
+        | (.ret v, st') => (.ret v, st')
+        | (.oom, st') => (.oom, st')) =
+      (match rr with
+        | (.ok v, st') => insertVal env hq none v st'
+        | (.raise e, st') => (.raise e, st')
+        | (.ret v, st') => (.ret v, st')
+        | (.oom, st') => (.oom, st')) := by
+    intro rr
+    obtain ⟨r, st'⟩ := rr
+    cases r with
+    | ok v =>
+      simp only [insertVal, Option.isSome_none, Bool.false_and, Bool.false_eq_true, if_false]
+      cases hq with
+      | false => simp
+      | true =>
+        simp only [if_true]
+        cases hp : pieceOfVal v with
+        | bytes b =>
+          simp only [Bool.not_false, if_true]
+          cases htmlQuote env (Piece.bytes b) <;> rfl
+        | text s =>
+          simp only
+          by_cases hs : (s.contains '&' || s.contains '<' || s.contains '>' || s.contains '"' || s.contains '\'') = true
+          · simp only [hs, if_true, Bool.not_false]
+            cases htmlQuote env (Piece.text s) <;> rfl
+          · have hs' : (s.contains '&' || s.contains '<' || s.contains '>' || s.contains '"' || s.contains '\'') = false := by
+              simpa using hs
+            simp only [hs', Bool.false_eq_true, if_false, Bool.not_true, htmlQuote, esc_id_of_plain s hs']
+    | raise e => rfl
+    | ret v => rfl
+    | oom => rfl
+  cases src with
+  | name n => exact key (getitem env fuel n true st)
+  | expr e => exact key (evalExpr env fuel e st)
+
 end DTML.Lemmas.IBlock
